@@ -242,12 +242,21 @@ impl Polynomial<Cmplx> {
             // lexicographically picked the cancelling sign whenever the square root fell on
             // the other side of its branch cut (e.g. x^3 + i, where -27 a^2 dis = -729 - 0i)
             let base = if ( d1.conj() * sqrt ).real < 0.0 { d1 - sqrt } else { d1 + sqrt } / 2.;
-            let k = base.pow( &Cmplx::new( 1. / 3.0, 0.0 ) );
-            roots[0] = -(b + k + d0 / k) / ( 3. * a );
-            let u = Cmplx::new( -0.5, (3.0_f64).sqrt() / 2.0 );
-            roots[1] = -(b + u * k + d0 / ( u * k ) ) / ( 3. * a );
-            let u2 = u * u;
-            roots[2] = -(b + u2 * k + d0 / ( u2 * k ) ) / ( 3. * a );
+            if base == Cmplx::zero() {
+                // (d1 +/- sqrt)/2 vanished in floating point although d0 and d1 did not both: the three
+                // roots coincide to working precision (in exact arithmetic this happens only for a
+                // triple root); the cube root of 0 and d0 / k below would give NaN roots
+                roots[0] = -b / ( 3. * a );
+                roots[1] = roots[0];
+                roots[2] = roots[0];
+            } else {
+                let k = base.pow( &Cmplx::new( 1. / 3.0, 0.0 ) );
+                roots[0] = -(b + k + d0 / k) / ( 3. * a );
+                let u = Cmplx::new( -0.5, (3.0_f64).sqrt() / 2.0 );
+                roots[1] = -(b + u * k + d0 / ( u * k ) ) / ( 3. * a );
+                let u2 = u * u;
+                roots[2] = -(b + u2 * k + d0 / ( u2 * k ) ) / ( 3. * a );
+            }
         }
         roots
     }
